@@ -3,7 +3,7 @@
 import json, os, sys
 V = os.path.dirname(os.path.dirname(os.path.abspath(__file__)))
 sys.path.insert(0, os.path.join(V, "lib"))
-import props
+import props, engines
 ALL = ["C%02d" % i for i in range(1, 21)]
 TRUST = ("Coq 8.16.1 kernel; hand-written Gallina model tied to /repo by (a) a differential correspondence check on exhaustive small scopes "
          "and seeded random traces (harness compiled from /repo's working tree with ASan/UBSan) and (b) constants/macros/guards regenerated from the C source "
@@ -30,7 +30,7 @@ m = {"version": 1,
      "hooks": {"guard": "CC_VERIF", "enable": "no hooks are needed: harnesses #include the library .c files (white box) and redirect malloc/calloc/free by macro; -DCC_VERIF is reserved and unused",
                "baseline_off_cmd": "tools/baseline.sh", "source_commits": [], "add_only": True},
      "engines": [{"name": n, "path": "coq/%s" % d, "serves_properties": sorted(pid for pid, p in props.PROPS.items() if any(e == n for e, _ in p["engines"])),
-                  "kind_free_text": "Gallina model + proofs, extracted OCaml interpreter, C harness harness/%s.c" % n} for n, d in props.ENGINE_DIRS.items()],
+                  "kind_free_text": "Gallina model + proofs, extracted OCaml interpreter, C harness harness/%s.c" % n} for n, d in sorted((n, m.DIR) for n, m in engines.ENGINES.items())],
      "checks": checks,
      "notes": "Known findings are listed in known_findings.txt; see DESIGN.md.",
      "not_applicable": na}
